@@ -19,6 +19,9 @@ import math
 from .srcmap import norm
 
 
+ITERTOOLS = ('permutations', 'combinations', 'product', 'chain', 'accumulate', 'zip_longest', 'combinations_with_replacement', 'islice', 'starmap', 'pairwise')
+
+
 class ElabError(Exception):
     pass
 
@@ -982,6 +985,18 @@ class Elab:
         else:
             raise ElabError('statement %s' % type(s).__name__)
 
+    def imports_from(self, rel, module, name):
+        """does the file (at module or function level) contain `from <module> import <name>` (name given) / `import <module>` (name None)?"""
+        t = self.facts.sm.try_tree(rel) if rel else None
+        if t is None:
+            return False
+        for n in ast.walk(t):
+            if name is not None and isinstance(n, ast.ImportFrom) and n.module == module and any(a.name in (name, '*') and (a.asname in (None, name)) for a in n.names):
+                return True
+            if name is None and isinstance(n, ast.Import) and any(a.name == module and a.asname in (None, module) for a in n.names):
+                return True
+        return False
+
     def eval_name(self, name, rel):
         return self.eval(ast.Name(id=name, ctx=ast.Load()), {'__rel__': rel})
 
@@ -1130,8 +1145,18 @@ class Elab:
                         'pow', 'divmod', 'hex', 'bin', 'ord', 'chr', 'dict', 'print', 'isinstance', 'type', 'hasattr', 'getattr', 'setattr', 'callable', 'id', 'vars',
                         'super', 'Exception', 'any', 'all', 'set', 'frozenset', 'repr', 'iter', 'next', 'format', 'map', 'filter', 'delattr', 'TranspilationException', 'eval'):
                 return ('builtin', e.id)
+            if e.id in ITERTOOLS and self.imports_from(frame.get('__rel__'), 'itertools', e.id):
+                import itertools
+                fn = getattr(itertools, e.id)
+                return ('npfn', (lambda *a, _fn=fn, **k: list(_fn(*a, **k))))
+            if e.id == 'itertools' and self.imports_from(frame.get('__rel__'), 'itertools', None):
+                return ModuleRef('itertools')
             raise PyExc('NameError', "name '%s' is not defined" % e.id)
         if isinstance(e, ast.Attribute):
+            if isinstance(e.value, ast.Name) and e.value.id == 'itertools' and e.attr in ITERTOOLS and self.imports_from(frame.get('__rel__'), 'itertools', None):
+                import itertools
+                fn = getattr(itertools, e.attr)
+                return ('npfn', (lambda *a, _fn=fn, **k: list(_fn(*a, **k))))
             return self.getattr_(self.eval(e.value, frame), e.attr, frame)
         if isinstance(e, ast.Call):
             if isinstance(e.func, ast.Name) and e.func.id == 'super' and not e.args:
